@@ -182,7 +182,8 @@ pub fn run_case(case: &Value) -> Value {
     match guarded("transform_css", || transform(path, css, opts, with_maps)) {
         Ok(r) => {
             if with_tokens {
-                o.insert("tokens_in".into(), tokenize(css));
+                // (a byte order mark is not a part of the text; the generator self-check reads the text)
+                o.insert("tokens_in".into(), tokenize(css.strip_prefix('\u{feff}').unwrap_or(css)));
                 o.insert("tokens_out".into(), tokenize(&r.out));
                 o.insert("tokens_low".into(), tokenize(&r.low));
             }
